@@ -18,12 +18,16 @@ specs = []
 for a in sys.argv[3:]:
     f, props = a.split(":")
     specs.append((f, props.split(",")))
+# SURVIVORS_ONLY=1: second pass - only the mutants recorded as SURVIVED are run again, against the properties listed now
+survivors_only = os.environ.get("SURVIVORS_ONLY") == "1"
 done = set()
+last = {}
 if os.path.exists(out_path):
     for l in open(out_path):
         try:
             r = json.loads(l)
             done.add((r["file"], r["offset"], r["new"]))
+            last[(r["file"], r["offset"], r["new"])] = r
         except Exception:
             pass
 jobs = []
@@ -33,7 +37,13 @@ for f, props in specs:
         m = json.loads(l)
         m["file"] = f
         m["props"] = props
-        if (f, m["offset"], m["new"]) not in done:
+        key = (f, m["offset"], m["new"])
+        if survivors_only:
+            prev = last.get(key)
+            if prev and prev["result"] == "SURVIVED" and not set(props) <= set(prev.get("props", [])):
+                m["prev_props"] = prev.get("props", [])
+                jobs.append(m)
+        elif key not in done:
             jobs.append(m)
 print("mutants to run:", len(jobs), flush=True)
 
@@ -79,6 +89,7 @@ def run(m):
                 caught.append({"prop": p, "sig": "harness error / timeout: " + txt[-200:]})
         res["result"] = "caught" if caught else "SURVIVED"
         res["caught"] = caught
+        res["props"] = sorted(set(m["props"]) | set(m.get("prev_props", [])))
         return res
     finally:
         shutil.rmtree(w, ignore_errors=True)
